@@ -537,3 +537,35 @@ fn c11_mixed_div_class() {
     assert!(a == 0 || is_nan_err(&r2) || matches!(as_float(&r2), Some(v) if !v.is_nan()), "C11.mixed.div_fi_never_nan: Float / Integer is a non-NaN Float or the NaN error");
     fin!(r1, r2);
 }
+
+// ---------------------------------------------------------------- C29: mod == try_rem (frame scan mod_delegates)
+// @unit tier=q float=1 prop=C29 fn=try_rem bounded="|a|,|b| < 2^15 for the value identity"
+#[kani::proof]
+#[kani::unwind(2)]
+fn c29_mod_int_bounded() {
+    let a: i64 = kani::any();
+    let b: i64 = kani::any();
+    kani::assume(a > -32768 && a < 32768 && b > -32768 && b < 32768 && b != 0);
+    let r = int(a).try_rem(int(b));
+    let ok = match as_int(&r) {
+        Some(x) => a == (a / b) * b + x && (x == 0 || (x < 0) == (a < 0)) && x.abs() < b.abs(),
+        None => false,
+    };
+    assert!(ok, "C29.mod.truncated: mod(a, b) is the truncated remainder: a == trunc(a/b)*b + r, sign(r) follows a, |r| < |b|");
+    fin!(r);
+}
+
+// @unit tier=q float=1 prop=C29 fn=try_rem
+#[kani::proof]
+#[kani::unwind(2)]
+fn c29_mod_int_class() {
+    let a: i64 = kani::any();
+    let b: i64 = kani::any();
+    let r = int(a).try_rem(int(b));
+    if b == 0 {
+        assert!(is_div0(&r), "C29.mod.zero: mod(a, 0) is the divide-by-zero error, not a panic");
+    } else {
+        assert!(as_int(&r).is_some(), "C29.mod.total: mod(a, b) with b != 0 yields an integer for every pair (no panic at i64::MIN % -1)");
+    }
+    fin!(r);
+}
